@@ -25,6 +25,10 @@ type c08Case struct {
 	Stage2 []string // nil = one processor only
 	Dests  int
 	Reject string // "" or "<dest>:<record>[:<piece>]"
+	// Loose: only the engine-independent oracles apply (the documented handling differs between the engines)
+	Loose bool
+	// Chunked: the destination confirms a write record by record (one ack response each)
+	Chunked bool
 	// NoMatch: records that do not match the condition of the first processor (nil = the processor has no condition)
 	NoMatch []int
 }
@@ -40,6 +44,9 @@ func (c c08Case) skipsStage1(i int) bool {
 
 func (c c08Case) String() string {
 	cond := ""
+	if c.Chunked {
+		cond += " chunked-acks"
+	}
 	if c.NoMatch != nil {
 		cond = fmt.Sprintf(" nomatch=%v", c.NoMatch)
 	}
@@ -60,10 +67,26 @@ func (c c08Case) expected(i int) (outcome string, pieces []string) {
 			return "dlq", nil
 		case "2":
 			pieces = []string{"0/2", "1/2"}
+		case "3":
+			pieces = []string{"0/3", "1/3", "2/3"}
+		case "m": // the middle piece of an earlier split is filtered
+			var keep []string
+			for _, p := range pieces {
+				if !strings.HasPrefix(p, "1/") {
+					keep = append(keep, p)
+				}
+			}
+			pieces = keep
+			if len(pieces) == 0 {
+				return "filtered", nil
+			}
 		}
 	}
-	if c.Reject != "" {
-		parts := strings.SplitN(c.Reject, ":", 3) // dest, record, piece
+	for _, rj := range strings.Split(c.Reject, ";") { // "<dest>:<record>[:<piece>]", several separated by ';'
+		if rj == "" {
+			continue
+		}
+		parts := strings.SplitN(rj, ":", 3) // dest, record, piece
 		if parts[1] == fmt.Sprint(i) {
 			pc := ""
 			if len(parts) == 3 {
@@ -93,10 +116,14 @@ func (c c08Case) params() flowParams {
 	if c.Stage2 != nil {
 		p.Procs = append(p.Procs, procParam{ID: "p2", Kinds: c.Stage2})
 	}
-	if c.Reject != "" {
-		parts := strings.SplitN(c.Reject, ":", 2)
-		p.Reject[parts[0]] = []string{"s0:" + parts[1]}
+	for _, rj := range strings.Split(c.Reject, ";") {
+		if rj == "" {
+			continue
+		}
+		parts := strings.SplitN(rj, ":", 2)
+		p.Reject[parts[0]] = append(p.Reject[parts[0]], "s0:"+parts[1])
 	}
+	p.ChunkAcks = c.Chunked
 	return p
 }
 
@@ -225,6 +252,47 @@ func TestVerifC08(t *testing.T) {
 			}
 		}
 	}
+	// split records, a later processor filtering one piece, one or two rejected pieces / records, and a destination that
+	// confirms in one response or record by record (funnel engine)
+	for _, s1 := range [][]string{{"3", "p"}, {"p", "3"}, {"3", "3"}, {"2", "p"}, {"p", "2"}} {
+		for _, s2 := range [][]string{{"m", "m"}, {"p", "p"}} {
+			base := c08Case{Engine: "v2", N: 2, Stage1: s1, Stage2: s2, Dests: 1}
+			var units []string // rejectable units
+			for i := 0; i < 2; i++ {
+				if out, pieces := base.expected(i); out == "delivered" {
+					for _, pc := range pieces {
+						u := fmt.Sprintf("d0:%d", i)
+						if pc != "" {
+							u += ":" + pc
+						}
+						units = append(units, u)
+					}
+				}
+			}
+			for _, chunked := range []bool{false, true} {
+				for a := 0; a < len(units); a++ {
+					c1 := base
+					c1.Chunked, c1.Reject = chunked, units[a]
+					cases = append(cases, c1)
+					for b := a + 1; b < len(units); b++ {
+						c2 := base
+						c2.Chunked, c2.Reject = chunked, units[a]+";"+units[b]
+						cases = append(cases, c2)
+					}
+				}
+				c0 := base
+				c0.Chunked = chunked
+				cases = append(cases, c0)
+			}
+		}
+	}
+	// a processor result that is a MultiRecord holding a single record with a position of its own: whatever the engine does
+	// with it, the source must never be acknowledged that position
+	for _, eng := range []string{"v1", "v2"} {
+		for _, s1 := range [][]string{{"1"}, {"1", "p"}, {"p", "1"}, {"1", "1"}} {
+			cases = append(cases, c08Case{Engine: eng, N: len(s1), Stage1: s1, Dests: 1, Loose: true})
+		}
+	}
 	rep.Bound("conditional_batches_max", condN[len(condN)-1])
 	rep.Bound("hole_batches_max", holeN[len(holeN)-1])
 	rep.Bound("cases_total", len(cases))
@@ -253,7 +321,10 @@ func TestVerifC08(t *testing.T) {
 		if c.Reject != "" || c.Stage2 != nil {
 			rep.Nontrivial(c.String())
 		}
-		vs := checkC08(c, x)
+		var vs []verifkit.Violation
+		if !c.Loose {
+			vs = checkC08(c, x)
+		}
 		for _, v := range filterFor("C08", append(vs, checkFlow(p, x)...)) {
 			v.Text += "\ncase: " + c.String() + "\nevent log:\n" + verifkit.FormatLog(x.W.Events())
 			v.Replay = map[string]any{"case": c}
